@@ -127,6 +127,16 @@ prop('C16', 'other',
      '(C libraries, float non-associativity), CuPy.',
      'symbolic execution of the real wrapper over a typestate model of the factorisation objects', 'DESIGN.md 3/C16')
 
+prop('C17', 'other',
+     'Success/failure logic of the real routines executed under pysym with nondeterministic stubs for their collaborators '
+     '(arbitrary mismatch sequences, NaN flags, sub-routine outcomes): every exit of PFlow.nr_solve/run, TDS.test_init, TDS.run and '
+     'EIG.run on an unsolved power flow, System.setup with failed links and andes.main.run exit-code aggregation; success implies '
+     'the residual test passed on the last evaluated iterate, every failure returns False with a raised exit code and no '
+     'exception. Step-level facts are in C04/C06, the singular-matrix path in C16.',
+     'NaN modelled through the flag of the isnan test (comparisons with a flagged value are false); file parsing failures and NaN '
+     'propagation inside numpy/C outside; multi-case runs without pool lose exit codes (listed known finding).',
+     'bounded symbolic execution of the real control flow over nondeterministic stubs', 'DESIGN.md 3/C17')
+
 ORDER = ['C%02d' % i for i in range(1, 21)]
 checks, na = [], []
 for pid in ORDER:
